@@ -289,11 +289,43 @@ def two_parameters(ctx):
             ctx.count("two_parameter_evaluations")
 
 
+def grids_aba(ctx):
+    """three trajectories whose first and last share a time grid while the middle one has another of the same length: each
+    trajectory is compared with the simulation at its own time points, whatever the order of the trajectories."""
+    import pandas as pd
+    spec = dict(species=["A", "B", "C"], parameters={"k": 1.0, "d": 0.7, "g": 0.3},
+                reactions=[(["A"], ["B"], "massaction", {"k": "k"}), (["B"], ["C"], "massaction", {"k": "d"}),
+                           (["C"], [], "massaction", {"k": "g"}), ([], ["A"], "massaction", {"k": 0.4})],
+                initial_condition_dict={"A": 10.0, "B": 0.0, "C": 2.0})
+    gA, gB = np.linspace(0, 3.0, 5), np.array([0.0, 0.2, 0.5, 1.1, 4.0])
+    vals = [[0.0, 3.1, 4.0, 3.7, 3.0], [1.0, 2.0, 2.6, 2.2, 1.9], [0.5, 2.5, 3.3, 3.1, 2.4]]
+    for order in ((0, 1, 2), (0, 2, 1), (1, 0, 2)):
+        grids = [gA, gB, gA]
+        frames = [pd.DataFrame({"time": grids[i], "B": vals[i], "C": [v / 2 for v in vals[i]]}) for i in order]
+        ics = [[{"A": 10.0, "B": 0.0}, {"A": 6.0, "B": 1.0}, {"A": 8.0, "B": 0.5}][i] for i in order]
+        case = {"spec": spec, "frames": frames, "measurements": ["B", "C"], "ics": ics, "pcs": None, "norm": 2, "prior": {"k": ["uniform", 0.0, 10.0]}}
+        M, inf = build_inference(case)
+        inf.prepare_inference()
+        inf.setup_cost_function()
+        for theta in (0.8, 0.5, 0.8):
+            rep = {"scenario": "time grids A, B, A", "trajectory_order": list(order), "theta": theta}
+            ctx.begin_case(rep)
+            got = float(inf.cost_function(np.array([theta])))
+            want = oracle_cost(case, theta)
+            ctx.evaluated()
+            if not (abs(got - want) <= 1e-5 * (1 + abs(want))):
+                ctx.violation("cost/time-alignment/grids-aba", "trajectories in the order %s (grids %s): cost_function(%g) = %r, the stated posterior is %r"
+                              % (list(order), ["AB"[int(i == 1)] for i in order], theta, got, want), rep)
+                return
+            ctx.count("grids_aba_evaluations")
+
+
 def run(ctx):
     n = 25 if ctx.quick() else 600
     for i in range(n):
         one_case(ctx, gen_case(ctx.rng))
     two_parameters(ctx)
+    grids_aba(ctx)
 
 
 def replay(ctx, obj):
